@@ -162,6 +162,10 @@ def gen(rng, tier, i):
         else:
             target = host + b":" + str(port).encode()
         hdrs = [("Host", target)] + ([("Proxy-Protocol", "udp")] if udp else [])
+        if not udp and rng.random() < 0.25:
+            # the destination of a CONNECT request is the authority in its request line; a Host header that names
+            # something else (another port, another host, an address) must not redirect the tunnel
+            hdrs[0] = ("Host", rng.choice([b"evil.sim:%d" % port, host + b":%d" % ((port + 1) % 65536), b"10.9.200.2:%d" % port, b"evil.sim", host, b"[fd09::bad]:%d" % port]))
         req = rc.http_connect(target, hdrs)
         if udp:
             if kind == "domain" and len(host) > 253:
